@@ -13,7 +13,9 @@ The models mirror the C statement by statement, including
 * `*dest = '\0'` on the "unterminated" exits, executed at whatever cell the scan has reached
   (`dest[dmax]` for an unterminated dest, a non-delimiter cell for an over-long delimiter string),
 * `ptoken` staying NULL when the delimiter string is empty (the inner loop body never runs),
-* `*ptr` being stored only when a delimiter ended the token (and `NULL` on the late error exits),
+* `*ptr` being stored at every return after the entry checks (since the `fix:` commit: also when the
+  scan ends at the terminator — before it the continuation pointer was stale there), `NULL` on the
+  late error exits,
 * `strtok_s` testing `RSIZE_MAX_STR` only when the object size is unknown.
 -/
 namespace SafeC
@@ -111,15 +113,15 @@ def delimScan2 (dest : Nat) : Nat → Nat → Prog Delim2
       if c = d' then pure .hit else delimScan2 dest slen (pt+1)
 
 /-- `while (*dest != '\0') { if (dlen == 0) <error>; <delimScan2: on a hit `*dest = 0; *ptr = dest+1;
-*dmaxp = dlen-1; return ptoken`>; dest++; dlen--; }  *dmaxp = dlen; return ptoken;` -/
+*dmaxp = dlen-1; return ptoken`>; dest++; dlen--; }  *ptr = dest; *dmaxp = dlen; return ptoken;` -/
 def scan2 (delim ptoken : Nat) : Nat → Nat → Prog TokOut
   | 0, dest => do
     let c ← load dest
-    if c = 0 then pure { ret := ptoken, dmaxv := some 0 }
+    if c = 0 then pure { ret := ptoken, dmaxv := some 0, ptrv := some dest }
     else tokUnterm dest
   | dlen+1, dest => do
     let c ← load dest
-    if c = 0 then pure { ret := ptoken, dmaxv := some (dlen+1) }
+    if c = 0 then pure { ret := ptoken, dmaxv := some (dlen+1), ptrv := some dest }
     else do
       let r ← delimScan2 dest STRTOK_DELIM_MAX_LEN delim
       match r with
@@ -135,7 +137,7 @@ def tokBody (wide : Bool) (delim dest dlen : Nat) : Prog TokOut := do
   match r with
   | .out o => pure o
   | .exit ptoken d l =>
-    if ptoken = 0 then pure { ret := 0, dmaxv := some l }
+    if ptoken = 0 then pure { ret := 0, dmaxv := some l, ptrv := some d }
     else scan2 delim ptoken l d
 
 /-- `_strtok_s_chk(dest, dmaxp, delim, ptr, destbos)`.
